@@ -667,11 +667,15 @@ func parseNumber(s []byte) (Object, error) {
 		return Integer(x), nil
 	}
 
-	y, err := strconv.ParseFloat(string(s), 64)
-	if err == strconv.ErrRange {
-		return nil, &postScriptError{eLimitcheck, fmt.Sprintf("number %q out of range", s)}
-	} else if err == nil && !math.IsInf(y, 0) && !math.IsNaN(y) {
-		return Real(y), nil
+	// strconv.ParseFloat also accepts forms which are not PostScript
+	// numbers, e.g. "0x1p4" and "1_0"; these are names.
+	if realNumberRe.Match(s) {
+		y, err := strconv.ParseFloat(string(s), 64)
+		if err == strconv.ErrRange {
+			return nil, &postScriptError{eLimitcheck, fmt.Sprintf("number %q out of range", s)}
+		} else if err == nil && !math.IsInf(y, 0) && !math.IsNaN(y) {
+			return Real(y), nil
+		}
 	}
 
 	mm := radixNumberRe.FindSubmatch(s)
@@ -688,4 +692,7 @@ func parseNumber(s []byte) (Object, error) {
 	return nil, &postScriptError{eSyntaxerror, fmt.Sprintf("invalid number %q", s)}
 }
 
-var radixNumberRe = regexp.MustCompile(`^([0-9]{1,2})#([0-9a-zA-Z]+)$`)
+var (
+	realNumberRe  = regexp.MustCompile(`^[+-]?([0-9]+\.?[0-9]*|\.[0-9]+)([eE][+-]?[0-9]+)?$`)
+	radixNumberRe = regexp.MustCompile(`^([0-9]{1,2})#([0-9a-zA-Z]+)$`)
+)
